@@ -157,7 +157,7 @@ def run(prop, spec, tier, scratch, known, vcheck):
         "coverage": {
             "states": max(paths, 1), "transitions": max(steps, 1), "traces_validated_against_impl": validated,
             "samples": samples or [{"note": "none"}],
-            "programs": sorted(set(j["prog"] for j in jobs)),
+            "programs": len(set(j["prog"] for j in jobs)), "programs_checked": sorted(set(j["prog"] for j in jobs)),
             "generated_functions_encoded": len(gen_funcs), "generated_functions_sample": gen_funcs[:60],
             "runtime_functions_encoded": sorted(f for f in funcs if "Workiva/frugal/lib/go" in f)[:60],
             "queries": queries, "assertions_checked": asserts, "exhaustive": not inconclusive, "inconclusive": inconclusive[:20],
